@@ -11,7 +11,9 @@ import (
 func replayC05(r *Run, o *Obligation) *ReplayResult {
 	safeV := r.e.langs.Get("CSS_VALUE_SAFE")
 	safeN := r.e.langs.Get("CSS_NAME_SAFE")
-	props := []string{"font-family", "background-image", "display", "color", "width", "unlisted-prop", "bad prop;"}
+	props := []string{"font-family", "background-image", "display", "color", "width", "unlisted-prop", "bad prop;",
+		// adversarial names (a name that is not a plain identifier must be replaced by the innocuous one)
+		"x;background-image:url(javascript:alert(1));color", "--x;position:fixed;height", "/*color", "a}body{display:none}b{color", "</style><script>alert(1)</script><style>a{color", "color:red;x", "-", "co lor", "color\n"}
 	// property \x00 value encoded as one string
 	fn := `func(in string) string { i := strings.IndexByte(in, 0); p, v := SanitizeCSS(in[:i], in[i+1:]); return p + "\x00" + v }`
 	check := func(cands []string) (string, string, bool) {
